@@ -333,7 +333,7 @@ func c26BuiltinArrays(thorough bool, emit c26EmitFn) {
 		}
 	}
 	// an associative array that is declared first and filled later
-	emit("barray-assoc[declared, then assigned]", "declare -A m; m=([k]=v [j]=w); echo \"1:${m[k]} ${m[j]} n=${#m[@]}\"\ndeclare -A e=(); e=([k]=v); echo \"2:${e[k]}\"\ndeclare -A d; d[k]=v; d=([j]=w); echo \"3:${d[j]} ${d[k]-U}\"\nf() { local -A l; l=([k]=v); echo \"4:${l[k]}\"; }; f\n")
+	emit("barray-assoc[declared, then assigned]", "declare -A m; m=([k]=v [j]=w); echo \"1:${m[k]} ${m[j]} n=${#m[@]}\"\ndeclare -A e=(); e=([k]=v); echo \"2:${e[k]}\"\ndeclare -A d; d[k]=v; d=([j]=w); echo \"3:${d[j]} ${d[k]-U}\"\nf() { declare -A l; l=([k]=v); echo \"4:${l[k]}\"; }; f\n")
 	// whole-array operations and what they leave
 	ops := []string{"unset a", "unset 'a[1]'", "unset 'a[0]'", "unset 'a[9]'", "unset 'a[-1]'", "a=()", "a=", "a=new", "a+=(t)", "a+=t", "a[7]=h", "a=(\"${a[@]}\")", "a=(\"${a[@]:1}\")", "a=(${a[*]})", "b=(\"${a[@]}\"); a=(\"${b[@]}\" \"${b[@]}\")", "a[${#a[@]}]=len", "set -- \"${a[@]}\"; shift; a=(\"$@\")", "unset a[1]", "unset a b", "unset -v 'a[0]' 'a[1]'", "IFS=:; x=\"${a[*]}\"; unset IFS; a=($x)"}
 	for _, st := range states {
@@ -367,6 +367,12 @@ func c26BuiltinShiftSet(thorough bool, emit c26EmitFn) {
 			for i, n := range ns {
 				k := strconv.Itoa(i + 1)
 				line := "shift " + n + "; echo \"" + k + ":$? $# <$*>\""
+				if n == "x" || n == "''" {
+					// a count which is not a number is a usage error with status 2
+					// where bash returns 1, and the repository's own tests pin that
+					// (recorded as a finding through the program below)
+					line = strings.ReplaceAll(line, "$?", "${?/[12]/E}")
+				}
 				if where == "function" {
 					sb.WriteString("f() { " + line + "; }; set -- " + argv + "; f " + argv + "; echo \"" + k + ":outer $# <$*>\"\n")
 				} else {
@@ -376,6 +382,7 @@ func c26BuiltinShiftSet(thorough bool, emit c26EmitFn) {
 			emit("bcmd-shift[argv=("+argv+") "+where+"]", sb.String())
 		}
 	}
+	emit("bcmd-shift[non-numeric count status]", "set -- a b; shift x; echo \"$? $#\"\n")
 	show := "echo \"N:$? $# <$1> <$2> <$3> <$*>\""
 	sets := []string{"set --", "set -- \"$@\" x", "set -- x \"$@\"", "set -- \"$@\" \"$@\"", "set a", "set -- -x", "set -- --", "set -", "set - a b", "set -- ''", "set -- 'p q' r", "set -- $*", "set -- \"$*\"", "set +", "set -- -", "set x -y", "set -- \"${@:2}\"", "set -f -- m n", "set +f o"}
 	for _, argv := range []string{"", "'1 2' 3"} {
@@ -446,8 +453,8 @@ func c26BuiltinUnsetReadonly(thorough bool, emit c26EmitFn) {
 	changes := []struct{ name, src string }{
 		{"assign", "r=2"}, {"append", "r+=2"}, {"prefix-builtin", "r=2 echo pb"}, {"prefix-function", "h() { echo \"h:$r\"; }; r=2 h"}, {"prefix-special", "r=2 :"},
 		{"export-assign", "export r=2"}, {"declare-assign", "declare r=2"}, {"readonly-again", "readonly r=2"}, {"local-assign", "h() { local r=2; echo \"h:$? $r\"; }; h"},
-		{"for-var", "for r in 2 3; do echo \"loop:$r\"; done"}, {"read", "read r <<< 2"}, {"arith", "(( r = 2 ))"}, {"arith-exp", "echo $(( r = 2 ))"}, {"default-assign", ": ${r:=2}"},
-		{"unset", "unset r"}, {"array-assign", "r=(2 3)"}, {"elem-assign", "r[1]=2"}, {"getopts-var", "builtin getopts a r -a"}, {"assign-in-subshell", "( r=2; echo \"sub:$r\" )"}, {"assign-in-cmdsubst", "echo \"$( r=2; echo \"cs:$r\" )\""},
+		{"for-var", "for r in 2 3; do echo \"loop:$r\"; done"}, {"read", "read r <<< 2"}, {"arith", "(( r = 2 ))"}, {"arith-exp", "y=$(( r = 2 ))"}, {"default-assign", ": ${r:=2}"},
+		{"unset", "unset r"}, {"array-assign", "r=(2 3)"}, {"elem-assign", "r[1]=2"}, {"getopts-var", "builtin getopts a r -a"}, {"assign-in-subshell", "( r=2; echo \"sub:$r\" )"}, {"assign-in-cmdsubst", "y=$( r=2; echo \"cs:$r\" ); echo \"y=$y\""},
 		{"assign-two", "q=1 r=2"}, {"assign-in-function", "h() { r=2; echo \"h-after:$?\"; }; h"}, {"assign-and", "r=2 && echo yes"}, {"assign-or", "r=2 || echo alt"}, {"assign-if", "if r=2; then echo T; else echo F; fi"},
 		{"let", "let r=2"}, {"readonly-function", "readonly -f rf; rf() { echo new; }; rf"}, {"export-n", "export -n r"}, {"printf-free-eval", "eval r=2"},
 	}
@@ -499,6 +506,12 @@ func c26BuiltinEval(thorough bool, emit c26EmitFn) {
 				continue
 			}
 			src := c.open + a.src + c.close + "\necho \"end=$?\"\n"
+			if (a.name == "syntax-error" || a.name == "syntax-error-paren" || a.name == "unterminated-quote") && !(a.name == "syntax-error" && c.name == "plain") {
+				// eval returns 1 for a syntax error where bash returns 2, and the
+				// repository's own tests pin that (recorded as a finding through the
+				// plain context): elsewhere only "failed or not" is compared
+				src = strings.ReplaceAll(src, "$?", "${?/[12]/E}")
+			}
 			if thorough || c.name == "plain" && (a.name == "syntax-error" || a.name == "exit-in-eval") || c.name == "errexit" && (a.name == "status" || a.name == "false" || a.name == "syntax-error" || a.name == "exit-in-eval") {
 				emit("bcmd-eval["+a.name+" "+c.name+"]", src)
 			} else if c.name == "errexit" {
@@ -593,10 +606,10 @@ func c26BuiltinTypeCd(thorough bool, emit c26EmitFn) {
 	}
 	// cd and pwd: the scratch directory has a different name on each side,
 	// so compare with the start directory instead of printing it
-	show := "echo \"N:$? here=$([[ $PWD == \"$start\" ]] && echo start || echo \"${PWD/#$start/S}\") pwd=$([[ $(pwd) == \"$PWD\" ]] && echo same || echo differs) old=$([[ $OLDPWD == \"$start\" ]] && echo start || echo \"${OLDPWD/#$start/S}\")\""
+	show := "echo \"N:$? here=$(where \"$PWD\") pwd=$([[ $(pwd) == \"$PWD\" ]] && echo same || echo differs) old=$(where \"$OLDPWD\")\""
 	cds := []string{"cd .", "cd ..", "cd nosuch", "cd ''", "cd - >/dev/null", "cd", "cd /", "cd /dev", "cd /dev/..", "cd //", "cd /dev/../dev/.", "cd . .", "cd f", "cd ./", "cd /dev; cd ..", "cd /dev; cd - >/dev/null", "cd /dev; cd \"$start\"", "cd /; cd dev", "cd -- /dev", "cd -L /dev", "cd -P /dev", "cd /dev/null", "HOME=/dev; cd", "HOME=/dev; cd ~", "CDPATH=/; cd dev >/dev/null", "cd /dev; cd ../..", "cd /dev/./../dev"}
 	var sb strings.Builder
-	sb.WriteString("start=$PWD; : > f\n")
+	sb.WriteString("start=$PWD; : > f\nwhere() { case $1 in \"$start\") echo start;; \"${start%/*}\") echo parent;; \"${start%/*/*}\") echo grandparent;; *) echo \"[$1]\";; esac; }\n")
 	for i, c := range cds {
 		sb.WriteString("( " + c + "; " + strings.ReplaceAll(show, "N:", strconv.Itoa(i+1)+":") + " )\n")
 	}
